@@ -242,6 +242,8 @@ CHECKS['C11']['text'] += (' V2000 columns (spec/sys/MdlFields.tla): the design m
                           'blocks the library writes are tokenised by column and validated by Trace_MdlFields, blocks rendered from generated fields (codes, property lines of 1..8 entries) are read by the library and validated the same way; '
                           'the V3000 keys CHG= / MASS= / RAD= through the same module; metadata whose value lines look like structure-block lines.')
 CHECKS['C09']['text'] += ' Ring primitives against macrocycles of 63..66 atoms (the ends of the ring-size field; known finding C09-ring-larger-than-65).'
+CHECKS['C19']['text'] += ' The cached ring views (skin_graph, rings_graph, atoms_rings, atoms_rings_sizes) before and after the views derived from them; atom numbers that do not ascend in storage order.'
+CHECKS['C09']['text'] += ' The element bits of every packed atom (also 117 / 118, folded onto the bit of 116) against Mask.tla unconditionally.'
 PENDING = {}
 
 
